@@ -545,11 +545,13 @@ fn run_case(c: &Case) -> Result<Flags, Failure> {
 				model.on_start_processing();
 				let mut want = Vec::with_capacity(*n);
 				let mut left = *n;
+				let _ = crate::models::param::take_edge_hit();
 				while left > 0 {
 					let k = left.min(c.ibs);
 					want.extend(model.chunk(k));
 					left -= k;
 				}
+				let edge = crate::models::param::take_edge_hit();
 				if std::env::var("KVERIF_DEBUG").is_ok() {
 					eprintln!("op #{oi} Callback({n}): out[0]={} want[0]={:?} states={:?} model={:?} clocks={:?}", cb.out[0], want[0], tracks.iter().map(|t| t.as_ref().map(|h| h.state())).collect::<Vec<_>>(), model.tracks.iter().map(|t| t.state).collect::<Vec<_>>(), clocks.iter().map(|c| c.as_ref().map(|h| (h.time().ticks, h.time().fraction))).collect::<Vec<_>>());
 				}
@@ -559,7 +561,7 @@ fn run_case(c: &Case) -> Result<Flags, Failure> {
 						flags.nonzero = true;
 					}
 					let (wl, wr) = want[i];
-					let tol = 1e-5 * (1.0 + wl.abs());
+					let tol = 1e-5 * (1.0 + wl.abs()) + if edge { 4e-3 } else { 0.0 };
 					if (l - wl).abs() > tol || (r - wr).abs() > tol {
 						return Err(Failure::simple("subtree-freeze-and-removal-model", format!("op #{oi}, output frame {} (frame {i} of this callback): got ({l}, {r}), reference gives ({wl}, {wr}); case {c:?}", t_total + i)));
 					}
